@@ -438,6 +438,11 @@ func (g *G) fastMath() []string {
 			out = append(out, f)
 		}
 	}
+	// the flags may be written in any order (LLVM prints `afn` last, a hand-written file need not)
+	for i := len(out) - 1; i > 0; i-- {
+		j := g.intn("fmorder", i+1)
+		out[i], out[j] = out[j], out[i]
+	}
 	return out
 }
 
@@ -460,6 +465,9 @@ func (g *G) genInst(c *cur) {
 			}
 			if g.chance("nsw", 1, 3) {
 				in.Flags = append(in.Flags, "nsw")
+			}
+			if len(in.Flags) == 2 && g.chance("nswfirst", 1, 2) {
+				in.Flags[0], in.Flags[1] = in.Flags[1], in.Flags[0] // `nsw nuw` is as good as `nuw nsw`
 			}
 		case "udiv", "sdiv":
 			if g.chance("exact", 1, 3) {
